@@ -1625,6 +1625,12 @@ func suiteC05(s *Shard, n int) {
 				s.Fail(f.Clause, f.Case, f.Detail)
 			}
 		}
+		if i%5 == 0 {
+			// "drawn over the target rectangle" in pixels, through raster/vec, when the rectangle overhangs the image
+			for _, f := range partlyInside("C05", line, cs, 1+r.Intn(64), 1+r.Intn(64), r) {
+				s.Fail(f.Clause, f.Case, f.Detail)
+			}
+		}
 	}
 }
 
@@ -1785,6 +1791,12 @@ func suiteC15(s *Shard, n int) {
 		}
 		if rect.Dx()*rect.Dy() <= 6400 {
 			for _, f := range monitorGradientPixels(line, rect, cs, r.Chance(50)) {
+				s.Fail(f.Clause, f.Case, f.Detail)
+			}
+		}
+		if i%5 == 0 {
+			// the paint stays aligned with the rectangle when the rectangle overhangs the image
+			for _, f := range partlyInside("C15", line, cs, 1+r.Intn(64), 1+r.Intn(64), r) {
 				s.Fail(f.Clause, f.Case, f.Detail)
 			}
 		}
@@ -1978,8 +1990,91 @@ func suiteC17(s *Shard, n int) {
 			if rest != obsB && !(rest == "" && obsB == "-") {
 				s.Fail("C17.renderer-reset-forgets", RenCase(rect, nil, ab), "rasteriser log after A;Reset;B differs from fresh Reset;B")
 			}
+			if r.Chance(35) {
+				for _, f := range monitorReusePixels(RenCase(rect, nil, ab), r, callsA, b) {
+					s.Fail(f.Clause, f.Case, f.Detail)
+				}
+			}
 		}
 	}
+}
+
+// countingRast counts the Draw calls that reach the repository's rasteriser adapter.
+type countingRast struct {
+	*vec.Rasterizer
+	draws int
+}
+
+func (c *countingRast) Draw(r image.Rectangle, src image.Image, sp image.Point) {
+	c.draws++
+	c.Rasterizer.Draw(r, src, sp)
+}
+
+// monitorReusePixels: "a Renderer and its rasteriser reused for another decode give the results of fresh objects", in
+// PIXELS through raster/vec: history A is drawn with a one-shot compositing operator into a rectangle of its own
+// (now and then an EMPTY one: a widget of size zero — round 5, C17-J), then the same Renderer and rasteriser are
+// pointed at another rectangle and draw B.  Fresh objects start from the pixels A left behind; their rasteriser has
+// the operator a reused one must have by then: source-over once A has made a Draw call, A's own operator if it made
+// none (the one-shot operator applies to the first drawn path, C16).
+func monitorReusePixels(line string, r *RNG, callsA, b []Call) (fails []Failure) {
+	defer func() {
+		if p := recover(); p != nil {
+			fails = nil // panics of the rasteriser are not this relation's business
+		}
+	}()
+	w, h := 8+r.Intn(40), 8+r.Intn(40)
+	bounds := image.Rect(0, 0, w, h)
+	sub := func() image.Rectangle {
+		x0, y0 := r.Intn(w-4), r.Intn(h-4)
+		return image.Rect(x0, y0, x0+1+r.Intn(w-x0-1), y0+1+r.Intn(h-y0-1))
+	}
+	rectA, rectB := sub(), sub()
+	switch r.Intn(3) {
+	case 0:
+		rectA = image.Rectangle{}
+	case 1:
+		rectA = rectB
+	}
+	opA := draw.Op(r.Intn(2))
+	background := func() *image.RGBA {
+		m := image.NewRGBA(bounds)
+		for y := 0; y < h; y++ {
+			for x := 0; x < w; x++ {
+				m.SetRGBA(x, y, color.RGBA{uint8(5 * x), uint8(5 * y), 0x80, 0xff})
+			}
+		}
+		return m
+	}
+	run := func(z *render.Renderer, cs []Call) {
+		for _, c := range cs {
+			if c.IsDest() {
+				c.Apply(z)
+			}
+		}
+	}
+	// reused objects
+	got := background()
+	cr := &countingRast{Rasterizer: &vec.Rasterizer{Dst: got, DrawOp: opA}}
+	var z render.Renderer
+	z.SetRasterizer(cr, rectA)
+	run(&z, callsA)
+	afterA := image.NewRGBA(bounds)
+	copy(afterA.Pix, got.Pix)
+	drawsA := cr.draws
+	z.SetRasterizer(cr, rectB)
+	run(&z, b)
+	// fresh objects on the pixels A left behind
+	op := draw.Over
+	if drawsA == 0 {
+		op = opA
+	}
+	var zf render.Renderer
+	zf.SetRasterizer(&vec.Rasterizer{Dst: afterA, DrawOp: op}, rectB)
+	run(&zf, b)
+	if d := firstPixelDiff(got, afterA); d != "" {
+		return append(fails, Failure{"C17.renderer-reuse-pixels", line, fmt.Sprintf("A (operator %v, %d Draw calls) into %v, then B into %v of a %dx%d image: reused Renderer+rasteriser and fresh ones (on the pixels A left) differ: %s", opA, drawsA, rectA, rectB, w, h, d)})
+	}
+	return nil
 }
 
 func lastTok(obs string) string {
